@@ -156,23 +156,17 @@ def w2(e: Engine, rep: Report):
     # which groups are separator / code: from recv_reply's use of them
     sep_g = code_g = None
     marker = None
+    gv = rx.group_vars(rctx.func.node)
+    code_g = gv.get('code')
     for n in walk_own(rctx.func.node):
         if isinstance(n, ast.Compare) and len(n.ops) == 1 and \
-                isinstance(n.left, ast.Call) and \
-                isinstance(n.left.func, ast.Attribute) and \
-                n.left.func.attr == 'group' and n.left.args and \
-                isinstance(n.left.args[0], ast.Constant) and \
                 isinstance(n.comparators[0], ast.Constant) and \
-                isinstance(n.comparators[0].value, bytes):
-            sep_g = n.left.args[0].value
-            marker = n.comparators[0].value
-        if isinstance(n, ast.Assign) and len(n.targets) == 1 and \
-                isinstance(n.targets[0], ast.Name) and \
-                n.targets[0].id == 'code' and isinstance(n.value, ast.Call) \
-                and isinstance(n.value.func, ast.Attribute) and \
-                n.value.func.attr == 'group' and n.value.args and \
-                isinstance(n.value.args[0], ast.Constant):
-            code_g = n.value.args[0].value
+                isinstance(n.comparators[0].value, bytes) and \
+                len(n.comparators[0].value) == 1:
+            gn = rx.group_of(n.left, gv)
+            if gn is not None:
+                sep_g = gn
+                marker = n.comparators[0].value
     if sep_g is None or code_g is None or marker is None:
         rep.error('anchor vanished: separator / code groups in recv_reply')
         return
@@ -354,8 +348,56 @@ def w4(e: Engine, rep: Report):
     g = e.build(ctx, raises=lambda b, n, r: set())
     where = ctx.func.qname
     heads = common.while_heads(g, g.entry.frame)
+    if len(heads) == 1:
+        # one loop that takes a line off the front of the buffer per trip:
+        # every trip either reads more input or consumes a whole, non-empty
+        # line
+        h, w = heads[0]
+        reads = [n for n in g.calls() if e.call_name(n) == 'buffered_recv']
+        cons = []
+        for n in g.of_kind('stmt'):
+            if isinstance(n.ast, ast.Assign) and any(
+                    path_of(t, n.frame) == 'self.recv_buffer'
+                    for t in n.ast.targets):
+                v = n.ast.value
+                if isinstance(v, ast.Subscript) and \
+                        isinstance(v.slice, ast.Slice) and \
+                        isinstance(v.slice.lower, ast.Call) and \
+                        isinstance(v.slice.lower.func, ast.Attribute) and \
+                        v.slice.lower.func.attr == 'end' and \
+                        isinstance(v.slice.lower.func.value, ast.Name):
+                    mv = v.slice.lower.func.value.id
+                    defs = [s2 for s2 in g.of_kind('stmt')
+                            if isinstance(s2.ast, ast.Assign) and any(
+                                isinstance(t, ast.Name) and t.id == mv
+                                for t in s2.ast.targets)]
+                    if defs and all(
+                            isinstance(d.ast.value, ast.Call) and
+                            isinstance(d.ast.value.func, ast.Attribute) and
+                            d.ast.value.func.attr == 'match' and
+                            isinstance(d.ast.value.func.value, ast.Name) and
+                            c09._regex_ends_in_newline(
+                                e, ctx.func.module.name,
+                                d.ast.value.func.value.id) is True
+                            for d in defs):
+                        cons.append(n)
+        counts = common.while_iteration_counts(
+            g, h, lambda n: 1 if n in reads or n in cons else 0)
+        rep.evaluations += 1
+        rep.check(bool(counts) and 0 not in counts, 'W4', where,
+                  'every trip of the parsing loop reads more input or '
+                  'consumes a whole line',
+                  'a trip round `while %s` can come back without having '
+                  'read more input and without having taken a whole line '
+                  'off the buffer (%s progress steps): the same bytes are '
+                  'looked at again for ever' % (ast.unparse(w.test),
+                                                sorted(counts)),
+                  loc='%s:%d' % (ctx.func.module.relpath, w.lineno),
+                  reason='buffered_recv or a whole-line consumption on '
+                  'every trip')
+        return
     if len(heads) < 2:
-        rep.error('anchor vanished: the two loops of recv_reply (%d)'
+        rep.error('anchor vanished: the loops of recv_reply (%d)'
                   % len(heads))
         return
     # inner loop: the one whose test mentions the scan position
